@@ -178,10 +178,12 @@ func TestVerif_C42_Codec(t *testing.T) {
 		rng := mrand.New(mrand.NewSource(rapid.Int64().Draw(t, "bytesSeed")))
 		var metas [2]c42Meta
 		for i := range metas {
-			metas[i].enable = rapid.IntRange(0, 9).Draw(t, "enable") != 0
+			metas[i].enable = rapid.IntRange(0, 15).Draw(t, "enable") != 7 // mid value: rapid favours the ends of a range
 			metas[i].size = sizes[rapid.IntRange(0, len(sizes)-1).Draw(t, "cfgSize")]
-			if rapid.IntRange(0, 2).Draw(t, "cfgDefault") == 0 {
-				metas[i].size = 2048
+			if rapid.IntRange(0, 7).Draw(t, "cfgValid") != 5 {
+				// scrambled so that rapid's preference for small draws does not collapse the minimum to 16
+				x := rapid.Uint32().Draw(t, "cfgSizeValid")
+				metas[i].size = sizes[3+int((uint64(x)*2654435761>>11)%uint64(len(sizes)-3))]
 			}
 		}
 		var hdrs [2]string
@@ -463,9 +465,9 @@ func TestVerif_C42_Codec(t *testing.T) {
 		injections := 0
 		for s := 0; s < steps; s++ {
 			switch a := rapid.IntRange(0, 19).Draw(t, "action"); {
-			case a < 8:
+			case a < 10:
 				send(rapid.IntRange(0, 1).Draw(t, "from"))
-			case a < 18:
+			case a < 17:
 				deliver(rapid.IntRange(0, 1).Draw(t, "to"))
 			default:
 				if injections < 3 {
